@@ -20,8 +20,14 @@ def check_pair(ctx, rule: str, relpath: str, cname: str, wname: str, rname: str,
         raise AnalysisError(f"{rule}: {cname}.{wname} / {cname}.{rname} not found")
     chk.analysed(w.qual, r.qual)
     nvals = lambda f: len([i for i in (struct_items(f) or []) if i[0] != "x"])  # noqa: E731
-    packs = [(f, c, o) for f, c, o in packsym.writer_layouts(prog, cls, w) if nvals(f) >= min_items]
-    unpacks = [(f, c, t, o, sd) for f, c, t, o, sd in packsym.reader_layouts(prog, cls, r) if nvals(f) >= min_items]
+
+    def canon(f: str) -> str:
+        its = struct_items(f)
+        if its is None or not f or f[0] not in "<>!=":
+            return f
+        return f[0] + "".join((f"{sz}{code}" if code in "sp" else code) for code, sz in its)
+    packs = [(canon(f), c, o) for f, c, o in packsym.writer_layouts(prog, cls, w) if nvals(f) >= min_items]
+    unpacks = [(canon(f), c, t, o, sd) for f, c, t, o, sd in packsym.reader_layouts(prog, cls, r) if nvals(f) >= min_items]
     construct = f"{relpath}::{cname} {wname}<->{rname}"
     if not packs or not unpacks:
         raise AnalysisError(f"{rule}: no foldable struct layout with >= {min_items} items in {construct} (writer {len(packs)}, reader {len(unpacks)})")
